@@ -305,6 +305,9 @@ func (x *Exec) selectTerm(vals []*smt.Term, idx *smt.Term) *smt.Term {
 		for i, v := range vals {
 			tv[i] = v.Val
 		}
+		if t, ok := x.piecewise(tv, vals[0].W, idx); ok {
+			return t
+		}
 		return C.Select(C.MkTable(vals[0].W, tv), idx)
 	}
 	acc := vals[len(vals)-1]
@@ -1068,4 +1071,73 @@ func (x *Exec) iterNext(it *mapIter, ins *ssa.Next) Value {
 		}
 	}
 	return Tuple{C.False(), nil, nil}
+}
+
+// piecewise recognises constant tables that are piecewise linear with slopes -1, 0, +1 (clip,
+// saturation and abs tables) and returns the closed form  ite(idx < b1, e1, ite(idx < b2, e2, ...)).
+func (x *Exec) piecewise(vals []uint64, w int, idx *smt.Term) (*smt.Term, bool) {
+	C := x.e.C
+	if w == 0 || len(vals) < 16 {
+		return nil, false
+	}
+	m := uint64(1)<<uint(w) - 1
+	if w >= 64 {
+		m = ^uint64(0)
+	}
+	type seg struct {
+		start int
+		base  uint64
+		slope uint64 // 0, 1 or m (= -1)
+	}
+	var segs []seg
+	cur := seg{start: 0, base: vals[0], slope: 2} // slope 2 = undetermined
+	for i := 1; i < len(vals); i++ {
+		d := (vals[i] - vals[i-1]) & m
+		if d != 0 && d != 1 && d != m {
+			return nil, false
+		}
+		if cur.slope == 2 {
+			cur.slope = d
+			continue
+		}
+		if d != cur.slope {
+			segs = append(segs, cur)
+			cur = seg{start: i - 1, base: vals[i-1], slope: d}
+			// the point i-1 belongs to both segments; start the new one at i-1 for a valid formula
+			if len(segs) > 7 {
+				return nil, false
+			}
+		}
+	}
+	if cur.slope == 2 {
+		cur.slope = 0
+	}
+	segs = append(segs, cur)
+	if len(segs) > 8 {
+		return nil, false
+	}
+	cw := idx.W
+	if w > cw {
+		cw = w
+	}
+	ix := C.Resize(idx, cw, false)
+	expr := func(sg seg) *smt.Term {
+		off := C.Sub(ix, C.BV(cw, uint64(sg.start)))
+		var v *smt.Term
+		switch sg.slope {
+		case 0:
+			v = C.BV(cw, sg.base)
+		case 1:
+			v = C.Add(C.BV(cw, sg.base), off)
+		default:
+			v = C.Sub(C.BV(cw, sg.base), off)
+		}
+		return C.Resize(v, w, false)
+	}
+	acc := expr(segs[len(segs)-1])
+	for k := len(segs) - 2; k >= 0; k-- {
+		// segment k is valid for idx <= segs[k+1].start
+		acc = C.Ite(C.Cmp(smt.OUle, ix, C.BV(cw, uint64(segs[k+1].start))), expr(segs[k]), acc)
+	}
+	return acc, true
 }
